@@ -124,6 +124,11 @@ def cflags(san=True, opt="-O1"):
     return fl
 
 
+# coverage survey mode (gen/coverage_survey.sh): HWV_COV=1 builds the library with gcov instrumentation in a
+# separate cache; never used by the registered commands
+COV = os.environ.get("HWV_COV") == "1"
+
+
 def ensure_config_headers():
     """The generated headers are git-ignored; regenerate them out of tree if a
     restored /repo lacks them."""
@@ -150,7 +155,7 @@ def build_lib(san=True):
     """Compile the 22 library sources of this configuration from the current
     tree into build/lib-<hash>/libhwloc_v.a.  Returns the archive path."""
     ensure_config_headers()
-    tag = {True: "asan", False: "plain", "tsan": "tsan"}[san]
+    tag = {True: "asan", False: "plain", "tsan": "tsan"}[san] + ("cov" if COV else "")
     h = repo_hash()
     d = os.path.join(BUILD, "lib-%s-%s" % (tag, h))
     lib = os.path.join(d, "libhwloc_v.a")
@@ -172,13 +177,14 @@ def build_lib(san=True):
             if ".tmp" in n and time.time() - _mt(n) > 1800:
                 shutil.rmtree(os.path.join(BUILD, n), ignore_errors=True)
     d_final = d
-    d = d + ".tmp%d" % os.getpid()
+    if not COV:      # gcov bakes the object directory into the binary: build in place
+        d = d + ".tmp%d" % os.getpid()
     os.makedirs(d, exist_ok=True)
     t0 = time.time()
     procs = []
     for s in LIB_SOURCES:
         o = os.path.join(d, s[:-2] + ".o")
-        cmd = ["gcc"] + cflags(san) + ["-c", os.path.join(REPO, "hwloc", s), "-o", o]
+        cmd = ["gcc"] + cflags(san) + (["--coverage", "-fprofile-update=atomic"] if COV else []) + ["-c", os.path.join(REPO, "hwloc", s), "-o", o]
         procs.append((s, subprocess.Popen(cmd, stdout=subprocess.PIPE, stderr=subprocess.PIPE)))
     fail = []
     for s, p in procs:
@@ -191,7 +197,8 @@ def build_lib(san=True):
     objs = [os.path.join(d, s[:-2] + ".o") for s in LIB_SOURCES]
     sh(["ar", "rcs", os.path.join(d, "libhwloc_v.a")] + objs, check=True)
     try:
-        os.rename(d, d_final)
+        if d != d_final:
+            os.rename(d, d_final)
     except OSError:
         shutil.rmtree(d, ignore_errors=True)   # somebody else built it meanwhile
     log("[hv] built %s in %.1fs" % (lib, time.time() - t0))
@@ -204,7 +211,7 @@ def build_harness(name, sources, san=True, with_lib=True, extra_flags=(), deps=(
     hash of (repo sources, harness sources)."""
     srcs = [os.path.join(VERIF, "harness", s) for s in sources]
     deps = [os.path.join(VERIF, "harness", s) for s in deps]
-    tag = {True: "asan", False: "plain", "tsan": "tsan"}[san]
+    tag = {True: "asan", False: "plain", "tsan": "tsan"}[san] + ("cov" if COV else "")
     h = file_hash(srcs + deps + repo_source_files(), extra=tag + " ".join(extra_flags))
     d = os.path.join(BUILD, "harness")
     os.makedirs(d, exist_ok=True)
@@ -224,7 +231,7 @@ def build_harness(name, sources, san=True, with_lib=True, extra_flags=(), deps=(
     if with_lib:
         cmd += [build_lib(san)]
     tmp = exe + ".tmp%d" % os.getpid()
-    cmd += ["-o", tmp] + LINK_LIBS
+    cmd += ["-o", tmp] + LINK_LIBS + (["-lgcov"] if COV else [])
     rc, out, err = sh(cmd, timeout=600)
     if rc != 0:
         raise RuntimeError("harness build failed (%s):\n%s" % (name, err.decode(errors="replace")[-6000:]))
